@@ -504,6 +504,18 @@ def _clear_params_cache(cls):
         _clear_params_cache(subcls)
 
 
+def _class_default(parameterized, param):
+    """
+    Default value an instance currently falls back to for the given Parameter:
+    the default of the class Parameter, which is what attribute access returns
+    (an instance-level copy of the Parameter holds the default it was copied with).
+    """
+    try:
+        return type(parameterized).param[param.name].default
+    except (AttributeError, KeyError):
+        return param.default
+
+
 def _instantiate_param_obj(paramobj, owner=None):
     """Return a Parameter object suitable for instantiation given the class's Parameter object."""
     # Shallow-copy Parameter object without the watchers
@@ -1589,10 +1601,10 @@ class Parameter(_ParameterBase):
                 _old = self.default
                 self.default = val
             elif not obj._param__private.initialized:
-                _old = obj._param__private.values.get(self.name, self.default)
+                _old = obj._param__private.values.get(self.name, _class_default(obj, self))
                 obj._param__private.values[self.name] = val
             else:
-                _old = obj._param__private.values.get(self.name, self.default)
+                _old = obj._param__private.values.get(self.name, _class_default(obj, self))
                 if val is not _old:
                     raise TypeError("Constant parameter '%s' cannot be modified" % name)
         else:
@@ -1605,7 +1617,7 @@ class Parameter(_ParameterBase):
                     obj._param__private = _InstancePrivate(
                         explicit_no_refs=type(obj)._param__private.explicit_no_refs
                     )
-                _old = obj._param__private.values.get(name, self.default)
+                _old = obj._param__private.values.get(name, _class_default(obj, self))
                 obj._param__private.values[name] = val
         self._post_setter(obj, val)
 
